@@ -125,6 +125,44 @@ theorem print_effect (fx : Fixes) (vt : VTState) (hw : Spec.WF vt) (hpw : vt.pen
 /-- four characters from column 2 of 6: the text ends exactly at the right edge -/
 example := print_effect Fixes.none exScreen exScreen_wf rfl [0x68, 0x65, 0x79, 0x21] (by decide) (by decide) (by decide)
 
+/-- The cells a printable character occupies are as many as the library's width counter says
+    (`tickit_utf8_wcwidth`, and `tickit_utf8_count` of its encoding: C07 `put_count_roundtrip`). -/
+theorem cells_are_library_width (cp : Nat) (hp : Spec.Printable cp) (fuel : Nat) :
+    ((Spec.cellsOf cp).length : Int) = Width.wcwidth cp ∧
+    Utf8.count (Utf8.memOfBytes (Utf8.putBytes cp)) (fuel + 2) none =
+      .ret (Utf8.seqlen cp) ⟨Utf8.seqlen cp, 1, if Width.wcwidth cp > 0 then 1 else 0, Width.wcwidth cp⟩
+        (Utf8.seqlen cp + 1) := by
+  obtain ⟨p1, p2, p3⟩ := hp
+  refine ⟨?_, Utf8.count_putBytes cp p1 p2 (by omega) fuel⟩
+  have hnn : 0 ≤ Width.wcwidth cp := by
+    rcases Utf8.wcwidth_cases cp with h | h
+    · exact absurd h (Utf8.wcwidth_ne_neg_one cp (by omega) (by omega))
+    · exact h
+  rcases cellsOf_cases cp with ⟨hw, hc⟩ | ⟨hw, hc⟩ | ⟨hw, hc⟩ <;>
+    (rw [hc]; unfold width at hw; simp only [List.length_cons, List.length_nil]; omega)
+
+/-- `print` of any printable UTF-8 text — multi-byte, double-width and combining characters included — that fits
+    in the row: exactly the cells under the text change, each character taking as many cells as the library's
+    width counter gives it (glyph, glyph + continuation cell, or none for a combining character), with the current
+    attributes; the cursor advances by the sum of the widths, or stays on the last column with the wrap pending
+    when the text ends exactly at the right edge.  The text is given by its code points; the bytes are the
+    library's own encoding of them. -/
+theorem print_utf8_effect (fx : Fixes) (vt : VTState) (hw : Spec.WF vt) (hpw : vt.pendingWrap = false)
+    (cps : List Nat) (hp : ∀ cp ∈ cps, Spec.Printable cp)
+    (hfit : vt.col + (Spec.textCells cps).length ≤ vt.cols) :
+    run (print fx (Spec.utf8 cps) (Spec.utf8 cps).length) vt = Spec.placeCells (Spec.textCells cps) vt := by
+  have : print fx (Spec.utf8 cps) (Spec.utf8 cps).length = Spec.utf8 cps := by
+    unfold print
+    by_cases h : (Spec.utf8 cps).length = 0
+    · have : Spec.utf8 cps = [] := List.eq_nil_of_length_eq_zero h
+      rw [this]; simp
+    · simp [h]
+  rw [this, run_utf8 cps hp vt hw.ground, foldl_putGlyph cps vt hpw hw.col_hi hfit]
+
+/-- "é", "一" (double width), "e" + combining acute, "€": 1 + 2 + 1 + 0 + 1 = 5 cells from column 1 of 6 -/
+example := print_utf8_effect Fixes.none { exScreen with col := 1 } (by constructor <;> decide) rfl
+  [0xe9, 0x4e00, 0x65, 0x301, 0x20ac] (by decide) (by decide +kernel)
+
 /-- `printn(str, len)` sends exactly the first `len` bytes (the full clause for the byte count). -/
 def C09_print_len (fx : Fixes) : Prop :=
   ∀ (str : List UInt8) (len : Nat), len ≤ str.length → print fx str len = str.take len
@@ -515,12 +553,17 @@ theorem request_effect (fx : Fixes) (d : Drv) (vt : VTState) (hw : Spec.WF vt) (
     · unfold Spec.move; split <;> exact hcols
     · unfold Spec.move; split <;> exact hrv
   | print s n =>
-    obtain ⟨hpw, hn, hne, hascii, hfit⟩ := hq
+    obtain ⟨hpw, hn, cps, hs, hp, hfit⟩ := hq
     subst hn
     simp only [request, StepOK]
-    rw [print_effect fx vt hw hpw s hascii hne hfit]
-    refine ⟨rfl, ?_, hcaps, hcols, hrv⟩
-    constructor <;> simp only [] <;> first | assumption | (split <;> omega)
+    refine ⟨?_, ?_, ?_, ?_, ?_⟩
+    · intro cps' hs' hp' hfit'
+      rw [hs', print_utf8_effect fx vt hw hpw cps' hp' hfit']
+    all_goals rw [hs, print_utf8_effect fx vt hw hpw cps hp hfit]
+    · constructor <;> simp only [Spec.placeCells] <;> first | assumption | (split <;> omega)
+    · exact hcaps
+    · exact hcols
+    · exact hrv
   | erasech n me =>
     obtain ⟨hpw, h1, hfit, h64, hlast⟩ := hq
     simp only [request, StepOK]
@@ -573,7 +616,7 @@ theorem sequence_effect (fx : Fixes) (d : Drv) (qs : List Request) (vt : VTState
 /-- a goto, a print up to the right edge, a column-only goto back and a reverse-video erase, on `exScreen` -/
 example : AllInContract Fixes.none ⟨⟨true, false, false⟩, 4, 6, ⟨true, some 3, some true⟩⟩ exScreen
     [.goto 2 3, .print [0x61, 0x62, 0x63] 3, .goto (-1) 1, .erasech 4 .no] :=
-  ⟨⟨by decide, by decide⟩, ⟨by decide +kernel, rfl, by decide, by decide, by decide +kernel⟩,
+  ⟨⟨by decide, by decide⟩, ⟨by decide +kernel, rfl, [0x61, 0x62, 0x63], by decide, by decide, by decide +kernel⟩,
    ⟨by decide, by decide +kernel⟩,
    ⟨by decide +kernel, by decide, by decide +kernel, by decide, by decide +kernel⟩, trivial⟩
 
